@@ -114,7 +114,8 @@ Section Leaf.
   Proof.
     unfold G_update_y_X, gen_update_y_X, gen_set_cutoff, mem_upd, L_set_y, set_cut.
     destruct y as [|p y]; [cbn; reflexivity|].
-    replace (Z.of_nat (length (p :: y)) >? 0) with true by (cbn [length]; lia).
+    (* whatever way the source writes "the batch is not empty" *)
+    match goal with |- (if ?c then _ else _) = _ => replace c with true by (cbn [length]; lia) end.
     reflexivity.
   Qed.
 
